@@ -495,9 +495,9 @@ func (s *Exec) pick(from *thread) *thread {
 						costs[i] = 1
 					}
 				case i < len(en)+len(due):
-					if curEn {
-						costs[i] = 1 // an asynchronous event overtakes a runnable thread
-					}
+					// a timer whose deadline has been reached may fire at any moment: it is an
+					// ordinary alternative of the environment, not a deviation
+					costs[i] = 0
 				default:
 					costs[i] = 1 // the clock jumps while threads are runnable
 				}
